@@ -65,6 +65,10 @@ def check_simulation_result(ins, outs, env, acc):
                     r.display_as_dataframe()
                     r.display_as_dataframe(threshold=0.3, conv_to_probability=(vlabel == "injective"))
                     r.print_outputs()
+                    if len(ins) + len(outs) <= 3 and vlabel != "tiny":
+                        import matplotlib.pyplot as plt
+                        r.plot(conv_to_probability=(vlabel == "injective"), state_labels={S(list(outs[0])): "first"})
+                        plt.close("all")
                 acc.tick("display_calls")
             ok2 = np.array_equal(r.array, vals)
             for a, i in enumerate(ins):
@@ -172,6 +176,10 @@ def check_sampling_result(items, env, acc):
     import contextlib, io
     with contextlib.redirect_stdout(io.StringIO()):
         r.display_as_dataframe(); r.print_outputs()
+        if len(items) <= 2:
+            import matplotlib.pyplot as plt
+            r.plot(state_labels={k: "first" for k in list(d)[:1]})
+            plt.close("all")
     if dict(r) != d:
         acc.violation("result_changed_by_displaying_it", case, None)
     for kind in ("threshold", "parity"):
